@@ -427,6 +427,16 @@ Theorem C18_handshake_full_extends : forall kx b x, hs_unmarshal kx b = Some x -
 Proof. exact hsx_extends_hs. Qed.
 Print Assumptions C18_handshake_full_extends.
 
+(* PARTIAL: byte-level fixed point of the full envelope for every type byte except ServerHello (2; no
+   length bound proved for its re-encoding), ServerKeyExchange (12; refuted just below) and
+   CertificateRequest (13).  Missing for the full statement: exactly those three types. *)
+Theorem C18_handshake_full_envelope_refix_partial : forall kx b x e,
+  bytes_ok b = true -> hsx_unmarshal kx b = Some x -> refix_type (hh_type (fst x)) = true ->
+  hsx_marshal x = Some e ->
+  (length e <= length b)%nat /\ exists x', hsx_unmarshal kx e = Some x' /\ hsx_marshal x' = Some e.
+Proof. exact hsx_refix_partial. Qed.
+Print Assumptions C18_handshake_full_envelope_refix_partial.
+
 (* REFUTED for the full switch (inherited from ServerKeyExchange, known finding): the re-encoding of
    an accepted envelope need not be accepted again *)
 Theorem C18_handshake_full_fixpoint_refuted :
